@@ -37,10 +37,12 @@ Record ghost := {
   g_know : subj -> issuer -> option (Z * tok);
   g_txn : nat -> option txn;
   g_owner : rid -> option (nat * issuer);
+  g_moot : rid -> option (nat * issuer);   (* requests whose addressee has answered through another request *)
   g_ntxn : nat
 }.
 Definition ghost0 (t0 : Z) : ghost :=
-  {| g_now := t0; g_know := fun _ _ => None; g_txn := fun _ => None; g_owner := fun _ => None; g_ntxn := 0 |}.
+  {| g_now := t0; g_know := fun _ _ => None; g_txn := fun _ => None; g_owner := fun _ => None;
+     g_moot := fun _ => None; g_ntxn := 0 |}.
 
 Definition asked_by_soap (w : world) (j : issuer) : bool :=
   match choose w j with Some SOAP => true | _ => false end.
@@ -92,8 +94,9 @@ Definition close_txn (va : view) (tx : nat -> option txn) : nat -> option txn :=
   fun n => match tx n with Some T => if present va (t_subj T) then Some T else None | None => None end.
 
 Definition base_ghost (g : ghost) (o : op) (ou : out) (va : view)
-           (txs : nat -> option txn) (ows : rid -> option (nat * issuer)) (ntx : nat) : ghost :=
-  {| g_now := now_after g o; g_know := know_after g o ou va; g_txn := close_txn va txs; g_owner := ows; g_ntxn := ntx |}.
+           (txs : nat -> option txn) (ows mts : rid -> option (nat * issuer)) (ntx : nat) : ghost :=
+  {| g_now := now_after g o; g_know := know_after g o ou va; g_txn := close_txn va txs; g_owner := ows;
+     g_moot := mts; g_ntxn := ntx |}.
 
 Definition txn_set (tx : nat -> option txn) (n : nat) (v : option txn) : nat -> option txn :=
   fun n' => if (n' =? n)%nat then v else tx n'.
@@ -103,6 +106,13 @@ Definition owner_drop (ow : rid -> option (nat * issuer)) (n : nat) (i : issuer)
   fun r' => match ow r' with
             | Some (n', a') => if (n' =? n)%nat && (a' =? i)%nat then None else Some (n', a')
             | None => None
+            end.
+
+(* ... and are remembered as moot (only the classification of findings reads this) *)
+Definition moot_add (mt ow : rid -> option (nat * issuer)) (n : nat) (i : issuer) : rid -> option (nat * issuer) :=
+  fun r' => match ow r' with
+            | Some (n', a') => if (n' =? n)%nat && (a' =? i)%nat then Some (n', a') else mt r'
+            | None => mt r'
             end.
 
 Definition ghost_step (w : world) (g : ghost) (vb : view) (o : op) (ou : out) (va : view) : ghost :=
@@ -115,8 +125,8 @@ Definition ghost_step (w : world) (g : ghost) (vb : view) (o : op) (ou : out) (v
         let T := {| t_subj := s; t_wait := wait; t_deadline := dl; t_soap := existsb (asked_by_soap w) involved |} in
         base_ghost g o ou va
           (txn_set (g_txn g) n (if deadline_passed (g_now g) dl || is_nil wait then None else Some T))
-          (owner_add (g_owner g) n (new_pending vb va)) (S n)
-      else base_ghost g o ou va (g_txn g) (g_owner g) (g_ntxn g)
+          (owner_add (g_owner g) n (new_pending vb va)) (g_moot g) (S n)
+      else base_ghost g o ou va (g_txn g) (g_owner g) (g_moot g) (g_ntxn g)
   | LogoutResponse r i success ans =>
       match answering g r i success with
       | Some (n, T) =>
@@ -124,10 +134,11 @@ Definition ghost_step (w : world) (g : ghost) (vb : view) (o : op) (ou : out) (v
           let T' := {| t_subj := t_subj T; t_wait := wait'; t_deadline := t_deadline T; t_soap := t_soap T |} in
           base_ghost g o ou va
             (txn_set (g_txn g) n (if deadline_passed (g_now g) (t_deadline T) || is_nil wait' then None else Some T'))
-            (owner_add (owner_drop (g_owner g) n i) n (new_pending vb va)) (g_ntxn g)
-      | None => base_ghost g o ou va (g_txn g) (g_owner g) (g_ntxn g)
+            (owner_add (owner_drop (g_owner g) n i) n (new_pending vb va)) (moot_add (g_moot g) (g_owner g) n i)
+            (g_ntxn g)
+      | None => base_ghost g o ou va (g_txn g) (g_owner g) (g_moot g) (g_ntxn g)
       end
-  | _ => base_ghost g o ou va (g_txn g) (g_owner g) (g_ntxn g)
+  | _ => base_ghost g o ou va (g_txn g) (g_owner g) (g_moot g) (g_ntxn g)
   end.
 
 (* ---------------------------------------------------------------- clauses (Prop) *)
@@ -153,6 +164,13 @@ Definition keeps (vb va : view) (except : option subj) : Prop :=
   forall s, present vb s = true -> Some s <> except -> present va s = true.
 Definition no_new (vb va : view) (except : option subj) : Prop :=
   forall s, present va s = true -> Some s <> except -> present vb s = true.
+
+(* pending logout requests: nothing appears; only requests of the excepted subject may disappear
+   (the property does not say whether the requests of a subject whose session has just ended are
+   kept or dropped: 73294247 drops them) *)
+Definition pend_kept (vb va : view) (except : option subj) : Prop :=
+  (forall rp, In rp (v_pending va) -> In rp (v_pending vb)) /\
+  (forall rp, In rp (v_pending vb) -> Some (pv_subj (snd rp)) <> except -> In rp (v_pending va)).
 
 Definition clause := world -> ghost -> view -> op -> out -> view -> Prop.
 
@@ -185,7 +203,7 @@ Definition cl_request : clause := fun w g vb o ou va =>
       keeps vb va (if (named =? cur)%nat then Some cur else None) /\ no_new vb va None
       /\ (named = cur -> present va cur = false)
       /\ (ou = OStatus LSuccess -> named = cur /\ present vb cur = true)
-      /\ v_pending va = v_pending vb
+      /\ pend_kept vb va (if (named =? cur)%nat then Some cur else None)
   | _ => True
   end.
 
@@ -218,7 +236,7 @@ Definition cl_ends : clause := fun w g vb o ou va =>
       | None => True
       end
   | LogoutRequest _ _ _ _ => True
-  | LocalLogout s => keeps vb va (Some s) /\ no_new vb va None /\ v_pending va = v_pending vb
+  | LocalLogout s => keeps vb va (Some s) /\ no_new vb va None /\ pend_kept vb va (Some s)
   | Login s _ _ _ | AcceptResponse s _ _ _ _ _ | Reset s _ =>
       keeps vb va None /\ no_new vb va (Some s) /\ v_pending va = v_pending vb
   | GetIdentity _ _ _ | GetInfoFrom _ _ _ | Stale _ _ | Tick _ =>
@@ -240,15 +258,21 @@ Fixpoint spec_from (cl : clause) (w : world) (g : ghost) (vb : view) (tr : trace
 Definition spec_cl (cl : clause) (w : world) (t0 : Z) (tr : trace) : Prop := spec_from cl w (ghost0 t0) empty_view tr.
 Definition spec (w : world) (t0 : Z) (tr : trace) : Prop := spec_cl step_ok w t0 tr.
 
-(* ---------------------------------------------------------------- the known finding classes.
+(* ---------------------------------------------------------------- the finding classes.
    A step is a TRIGGER of
-     class 1  when a global logout is started for a subject with an involved IdP that is
+     class 1  (open) when a global logout is started for a subject with an involved IdP that is
               asked over SOAP (the synchronous path does no bookkeeping at all);
-     class 2  when a successful LogoutResponse carries the id of a pending request of a
-              transaction in progress but comes from another party than the one asked;
-     class 3  when a successful LogoutResponse carries an id that the client still keeps in
-              its state although the request's transaction is over (completed, or the
-              session ended otherwise, or the same party has already answered). *)
+     class 2  (fixed by de5f1fed) when a successful LogoutResponse carries the id of a pending request
+              of a transaction in progress but comes from another party than the one asked;
+     class 3  (fixed by 73294247) when a successful LogoutResponse carries an id that the client still
+              keeps in its state although the request's transaction is over (completed, or the
+              session ended otherwise);
+     class 4  (open, the residue of 3) when a successful LogoutResponse carries the id of a request
+              that the client still keeps, of a transaction still in progress, whose addressee has
+              ALREADY answered through another request of the same transaction (do_logout asks the
+              remaining IdPs again after every answer), and comes from that addressee.
+   Classes 2 and 3 are recognised so that a regression is attributed to them; the repaired code
+   never violates a clause there, so the guard only excludes the open classes. *)
 Definition trigger (w : world) (g : ghost) (vb : view) (o : op) : nat :=
   match o with
   | StartLogout s _ _ =>
@@ -260,21 +284,41 @@ Definition trigger (w : world) (g : ghost) (vb : view) (o : op) : nat :=
           | Some T => if (a =? i)%nat then 0%nat else 2%nat
           | None => if mem r (pending_ids vb) then 3%nat else 0%nat
           end
-      | None => if mem r (pending_ids vb) then 3%nat else 0%nat
+      | None =>
+          if mem r (pending_ids vb) then
+            match g_moot g r with
+            | Some (n, a) =>
+                match g_txn g n with
+                | Some T => if (a =? i)%nat then 4%nat else 3%nat
+                | None => 3%nat
+                end
+            | None => 3%nat
+            end
+          else 0%nat
       end
   | _ => 0%nat
   end.
 
-Fixpoint first_trigger_from (w : world) (g : ghost) (vb : view) (tr : trace) : nat :=
-  match tr with
-  | [] => 0%nat
-  | (o, ou, va) :: r =>
-      match trigger w g vb o with
-      | O => first_trigger_from w (ghost_step w g vb o ou va) va r
-      | k => k
-      end
-  end.
+Definition open_class (k : nat) : bool := (k =? 1)%nat || (k =? 4)%nat.
+Definition open_trigger (w : world) (g : ghost) (vb : view) (o : op) : nat :=
+  let k := trigger w g vb o in if open_class k then k else 0%nat.
+
+Section First.
+  Variable trig : world -> ghost -> view -> op -> nat.
+  Fixpoint first_from (w : world) (g : ghost) (vb : view) (tr : trace) : nat :=
+    match tr with
+    | [] => 0%nat
+    | (o, ou, va) :: r =>
+        match trig w g vb o with
+        | O => first_from w (ghost_step w g vb o ou va) va r
+        | k => k
+        end
+    end.
+End First.
+(* first trigger of an OPEN class / of any class *)
+Definition first_trigger_from := first_from open_trigger.
 Definition first_trigger (w : world) (t0 : Z) (tr : trace) : nat := first_trigger_from w (ghost0 t0) empty_view tr.
+Definition first_any_trigger (w : world) (t0 : Z) (tr : trace) : nat := first_from trigger w (ghost0 t0) empty_view tr.
 Definition guard (w : world) (t0 : Z) (tr : trace) : Prop := first_trigger w t0 tr = 0%nat.
 
 (* ---------------------------------------------------------------- boolean versions *)
@@ -340,6 +384,12 @@ Section StepB.
   Definition no_new_b (except : option subj) : bool :=
     forallb (fun s => negb (osubj_neqb s except) || present vb s) (map fst (v_subjects va)).
 
+  Definition pend_in_b (rp : rid * pview) (l : list (rid * pview)) : bool :=
+    existsb (fun x => (fst x =? fst rp)%nat && pview_eqb (snd x) (snd rp)) l.
+  Definition pend_kept_b (except : option subj) : bool :=
+    forallb (fun rp => pend_in_b rp (v_pending vb)) (v_pending va)
+    && forallb (fun rp => negb (osubj_neqb (pv_subj (snd rp)) except) || pend_in_b rp (v_pending va)) (v_pending vb).
+
   Definition is_success (x : out) : bool := match x with OStatus LSuccess => true | _ => false end.
   Definition cl_request_b : bool :=
     match o with
@@ -347,7 +397,7 @@ Section StepB.
         keeps_b (if (named =? cur)%nat then Some cur else None) && no_new_b None
         && (negb (named =? cur)%nat || negb (present va cur))
         && (negb (is_success ou) || ((named =? cur)%nat && present vb cur))
-        && pending_eqb (v_pending va) (v_pending vb)
+        && pend_kept_b (if (named =? cur)%nat then Some cur else None)
     | _ => true
     end.
 
@@ -383,7 +433,7 @@ Section StepB.
         | None => true
         end
     | LogoutRequest _ _ _ _ => true
-    | LocalLogout s => keeps_b (Some s) && no_new_b None && pending_eqb (v_pending va) (v_pending vb)
+    | LocalLogout s => keeps_b (Some s) && no_new_b None && pend_kept_b (Some s)
     | Login s _ _ _ | AcceptResponse s _ _ _ _ _ | Reset s _ =>
         keeps_b None && no_new_b (Some s) && pending_eqb (v_pending va) (v_pending vb)
     | GetIdentity _ _ _ | GetInfoFrom _ _ _ | Stale _ _ | Tick _ =>
